@@ -53,7 +53,7 @@ func genNonceStr(baseStr string, length int, fn Intn) string {
 
 	var index int
 	for i := 0; i < length; i++ {
-		index = fn(bSize - 1)
+		index = fn(bSize)
 		strBuilder.WriteByte(baseStr[index])
 	}
 
